@@ -56,12 +56,18 @@ func (cp ConstantPacer) Pace(elapsed time.Duration, hits uint64) (time.Duration,
 		return 0, true
 	}
 
+	interval := uint64(cp.Per.Nanoseconds() / int64(cp.Freq))
+	if interval == 0 {
+		// More than one hit per nanosecond can't be paced by sleeping,
+		// send next hit immediately.
+		return 0, false
+	}
+
 	expectedHits := uint64(cp.Freq) * uint64(elapsed/cp.Per)
 	if hits < expectedHits {
 		// Running behind, send next hit immediately.
 		return 0, false
 	}
-	interval := uint64(cp.Per.Nanoseconds() / int64(cp.Freq))
 	if math.MaxInt64/interval < hits {
 		// We would overflow delta if we continued, so stop the attack.
 		return 0, true
